@@ -413,6 +413,12 @@ func (e *Engine) builtinAppend(st *State, s, t Val, resT types.Type) Val {
 		slen, oldrow, soff, slen, nlen, tArr("(- i "+slen+")"), row,
 		soff, slen, soff, nlen, tArr("(- (- i "+soff+") "+slen+")"), oldrow, row))
 	rref := ite(grow, newref, sref)
+	if tlen == "1" && es == "Int" {
+		// the element set grows by exactly the appended element (valid fact about append; saves an induction)
+		reg.declareFun("elems!Int", []string{"(Array Int Int)", "Int", "Int"}, "(Array Int Bool)")
+		e.assumptions["append(s, x): elems(result) = elems(s) + {x} (trusted lemma about the ghost element set)"] = true
+		st.assume(fmt.Sprintf("(= (elems!Int %s %s %s) (store (elems!Int %s %s %s) %s true))", row, ite(grow, "0", soff), nlen, oldrow, soff, slen, tArr("0")))
+	}
 	st.setHeap(hn, hs, store(h, rref, row))
 	res := mkSlice(rref, ite(grow, "0", soff), nlen, ite(grow, ncap, scap))
 	r := st.freshConst("appres", "Slice")
